@@ -1,4 +1,5 @@
 import HbsModel.Registry
+import HbsModel.Lemmas.NumOrder
 /-
   C15  Comparison and boolean helpers agree with exact arithmetic and order laws.
   (`num-order`'s NumOrd is an external crate: its mixed comparisons are represented by exact
@@ -154,5 +155,67 @@ theorem len_cases : (∀ a, jsonLen (.arr a) = a.length) ∧ (∀ m, jsonLen (.o
     (∀ s, jsonLen (.str s) = utf8Len s) ∧ jsonLen .null = 0 ∧ (∀ b, jsonLen (.bool b) = 0) ∧
     (∀ n, jsonLen (.num n) = 0) := by
   refine ⟨fun _ => rfl, fun _ => rfl, fun _ => rfl, rfl, fun _ => rfl, fun _ => rfl⟩
+
+/-! ### the comparison IS the order of the exact values – a total preorder on all number representations -/
+
+/-- the exact value of a number as an integer multiple of 2^K (u64 / i64: the integer itself at K = 0;
+    f64: ±mantissa·2^(exponent-K)) -/
+def scaled (K : Int) (a : Num) : Int := a.exact.scaled K
+
+/-- **`gt/gte/lt/lte` compare exact mathematical values**: at any common scale 2^K below both
+    exponents, the comparison of two numbers – unsigned, signed or floating, in any mix – is the
+    integer comparison of their exact values -/
+theorem num_cmp_is_order_of_exact_values (a b : Num) (K : Int) (ha : K ≤ a.exact.e) (hb : K ≤ b.exact.e) :
+    Num.cmp a b = compare (scaled K a) (scaled K b) :=
+  Dy.cmp_scaled a.exact b.exact K ha hb
+
+/-- integers are their own exact value -/
+theorem scaled_int : (∀ n, scaled 0 (.pos n) = n) ∧ (∀ n, scaled 0 (.neg n) = -(n : Int)) := by
+  constructor <;> intro n <;> simp [scaled, Num.exact, Dy.scaled, Dy.mag]
+
+private theorem common_scale (a b c : Num) :
+    ∃ K : Int, K ≤ a.exact.e ∧ K ≤ b.exact.e ∧ K ≤ c.exact.e :=
+  ⟨min a.exact.e (min b.exact.e c.exact.e), by omega, by omega, by omega⟩
+
+/-- transitivity of the mixed order (u64 / i64 / f64 in any combination) -/
+theorem num_lt_trans (a b c : Num) (h1 : Num.cmp a b = .lt) (h2 : Num.cmp b c = .lt) : Num.cmp a c = .lt := by
+  obtain ⟨K, ha, hb, hc⟩ := common_scale a b c
+  rw [num_cmp_is_order_of_exact_values a b K ha hb, Int.compare_eq_lt] at h1
+  rw [num_cmp_is_order_of_exact_values b c K hb hc, Int.compare_eq_lt] at h2
+  rw [num_cmp_is_order_of_exact_values a c K ha hc, Int.compare_eq_lt]
+  omega
+
+theorem num_le_trans (a b c : Num) (h1 : Num.cmp a b ≠ .gt) (h2 : Num.cmp b c ≠ .gt) : Num.cmp a c ≠ .gt := by
+  obtain ⟨K, ha, hb, hc⟩ := common_scale a b c
+  rw [num_cmp_is_order_of_exact_values a b K ha hb, Ne, Int.compare_eq_gt] at h1
+  rw [num_cmp_is_order_of_exact_values b c K hb hc, Ne, Int.compare_eq_gt] at h2
+  rw [num_cmp_is_order_of_exact_values a c K ha hc, Ne, Int.compare_eq_gt]
+  omega
+
+/-- numbers that compare equal have the same exact value, and conversely (so `2^53` as u64 and as f64
+    are equal, `2^53 + 1` and `2^53` as f64 are not) -/
+theorem num_eq_iff_same_value (a b : Num) (K : Int) (ha : K ≤ a.exact.e) (hb : K ≤ b.exact.e) :
+    Num.cmp a b = .eq ↔ scaled K a = scaled K b := by
+  rw [num_cmp_is_order_of_exact_values a b K ha hb, Int.compare_eq_eq]
+
+theorem num_eq_trans (a b c : Num) (h1 : Num.cmp a b = .eq) (h2 : Num.cmp b c = .eq) : Num.cmp a c = .eq := by
+  obtain ⟨K, ha, hb, hc⟩ := common_scale a b c
+  rw [num_eq_iff_same_value a b K ha hb] at h1
+  rw [num_eq_iff_same_value b c K hb hc] at h2
+  rw [num_eq_iff_same_value a c K ha hc]
+  omega
+
+/-- the helpers on well-formed JSON numbers: `lt` is transitive -/
+theorem lt_trans_numbers (a b c : Num) (ha : a.WF) (hb : b.WF)
+    (h1 : lt (.num a) (.num b) = true) (h2 : lt (.num b) (.num c) = true) : lt (.num a) (.num c) = true := by
+  simp only [lt, compare_num_num, cmpNums_exact a _ ha, cmpNums_exact b _ hb, beq_iff_eq, Option.some.injEq] at *
+  exact num_lt_trans a b c h1 h2
+
+/-- evaluated instances: 2^53 as u64 equals 2^53 as f64; 2^53+1 (u64) is greater than 2^53 (f64);
+    u64::MAX is less than 2^64 as f64; -0.0 equals 0 -/
+example : Num.cmp (.pos (2 ^ 53)) (.flt 0x4340000000000000) = .eq
+    ∧ Num.cmp (.pos (2 ^ 53 + 1)) (.flt 0x4340000000000000) = .gt
+    ∧ Num.cmp (.pos (2 ^ 64 - 1)) (.flt 0x43F0000000000000) = .lt
+    ∧ Num.cmp (.flt 0x8000000000000000) (.pos 0) = .eq := by decide
 
 end Hbs.C15
